@@ -176,8 +176,8 @@ pub fn run(tier: Tier, replay: Option<String>) -> i32 {
                 for policy in 0..3u8 {
                     let pr = Params { clients, workers, capture, policy };
                     let pr2 = pr.clone();
-                    let bound = if clients + workers >= 4 { tier.pick(2, 2) } else { tier.pick(2, 3) };
-                    jobs.push(e3::job(format!("C15/{}c{}w/cap{}/policy{}", clients, workers, capture, policy), pj(&pr), bound, tier.pick(150_000, 3_000_000), move || scenario(&pr2)));
+                    let bound = if clients + workers >= 4 { tier.pick(2, 3) } else if clients + workers == 3 { tier.pick(2, 3) } else { tier.pick(3, 4) };
+                    jobs.push(e3::job(format!("C15/{}c{}w/cap{}/policy{}", clients, workers, capture, policy), pj(&pr), bound, tier.pick(600_000, 10_000_000), move || scenario(&pr2)));
                 }
             }
         }
